@@ -239,6 +239,11 @@ Lemma replace_all_nil : forall s, replace_all [] s = s.
 Proof. intros s. reflexivity. Qed.
 Print Assumptions replace_all_nil.
 
+(** the same for the capped driver the line processor calls *)
+Lemma replace_all_c_nil : forall s, replace_all_c [] s = s.
+Proof. intros s. reflexivity. Qed.
+Print Assumptions replace_all_c_nil.
+
 (** * The scanner on a line without quote or comment opener *)
 Lemma scan_line_plain : forall asm l st,
     sc_in_comment st = false ->
@@ -446,7 +451,7 @@ Section Steps.
   Lemma line_step_plain : forall ms sc o mp st stk line l,
       sc_in_comment sc = false ->
       plain_ok l = true ->
-      replace_all ms l = l ->
+      replace_all_c ms l = l ->
       line_step rec fs fname inc asm (mkP (mkCtx ms sc) o mp st stk) line l =
       POk (if cstate_eqb st Active
            then mkP (mkCtx ms sc) (o ++ l) ((fname, line, inc) :: mp) st stk
@@ -476,7 +481,7 @@ Section Steps.
   Lemma line_step_inert : forall ms sc o mp st stk line l,
       sc_in_comment sc = false ->
       inert_ok l = true ->
-      replace_all ms l = l ->
+      replace_all_c ms l = l ->
       st <> Active ->
       line_step rec fs fname inc asm (mkP (mkCtx ms sc) o mp st stk) line l =
       POk (mkP (mkCtx ms sc) o mp st stk).
@@ -511,7 +516,7 @@ Section Steps.
     destruct (dir_line_facts "#if " c eq_refl eq_refl Hok)
       as [Hne Hq Hsl Hop Hbs Htrim Hslt Hct Hcne].
     step_open Hc Hne Hq Hsl Hop.
-    rewrite replace_all_nil, Htrim.
+    rewrite replace_all_c_nil, Htrim.
     change ("#if " ++ c) with ("#if" ++ " " ++ c).
     rewrite (directive_parts_sp "#if" c eq_refl Hslt), Hct, Hcne.
     cbn [starts_with append Ascii.eqb Bool.eqb andb String.eqb].
@@ -530,7 +535,7 @@ Section Steps.
     destruct (dir_line_facts "#elif " c eq_refl eq_refl Hok)
       as [Hne Hq Hsl Hop Hbs Htrim Hslt Hct Hcne].
     step_open Hc Hne Hq Hsl Hop.
-    rewrite replace_all_nil, Htrim.
+    rewrite replace_all_c_nil, Htrim.
     change ("#elif " ++ c) with ("#elif" ++ " " ++ c).
     rewrite (directive_parts_sp "#elif" c eq_refl Hslt), Hct, Hcne.
     cbn [starts_with append Ascii.eqb Bool.eqb andb String.eqb].
@@ -704,7 +709,7 @@ Section Steps.
       runs [l] sc st stk st stk (if cstate_eqb st Active then [l] else []).
   Proof.
     intros l sc st stk Hc Hl o mp line. cbn [steps].
-    rewrite (line_step_plain [] sc o mp st stk _ l Hc Hl (replace_all_nil l)).
+    rewrite (line_step_plain [] sc o mp st stk _ l Hc Hl (replace_all_c_nil l)).
     destruct (cstate_eqb st Active).
     - exists ((fname, (line + 1 + 0)%N, inc) :: mp). split; reflexivity.
     - exists mp. cbn [String.concat]. rewrite app_empty_r. split; reflexivity.
@@ -749,7 +754,7 @@ Section Steps.
       apply negb_true_iff in Hwf.
       apply runs_eq with (L := []); [|unfold emitted; destruct (cstate_eqb st Active); reflexivity].
       apply runs_silent. intros o mp line.
-      apply line_step_inert; [exact Hc | exact Hok | apply replace_all_nil |].
+      apply line_step_inert; [exact Hc | exact Hok | apply replace_all_c_nil |].
       intros Hst. subst st. discriminate.
     - (* Group *)
       intros h body rest IHbody IHrest st stk Hok Hwf.
@@ -1520,11 +1525,11 @@ Print Assumptions inactive_define_undef_inert.
 (** general form: ordinary lines and #define / #undef / #include / #error lines, outside an
     Active region, with the scanner not in a comment, leave the whole state unchanged --
     provided macro substitution does not rewrite the line (always so when no macro is defined,
-    [replace_all_nil]; see [inactive_not_inert_with_macros] for why this is needed) *)
+    [replace_all_c_nil]; see [inactive_not_inert_with_macros] for why this is needed) *)
 Theorem inactive_is_inert : forall rec fs fname inc asm p line l,
     plain_ok l = true \/ inert_ok l = true ->
     sc_in_comment (c_scan (p_ctx p)) = false ->
-    replace_all (c_macros (p_ctx p)) l = l ->
+    replace_all_c (c_macros (p_ctx p)) l = l ->
     p_state p <> Active ->
     line_step rec fs fname inc asm p line l = POk p.
 Proof.
@@ -1545,7 +1550,7 @@ Corollary inactive_is_inert_no_macros : forall rec fs fname inc asm p line l,
     line_step rec fs fname inc asm p line l = POk p.
 Proof.
   intros rec fs fname inc asm p line l Hl Hc Hms Hst.
-  apply inactive_is_inert; try assumption. rewrite Hms. apply replace_all_nil.
+  apply inactive_is_inert; try assumption. rewrite Hms. apply replace_all_c_nil.
 Qed.
 Print Assumptions inactive_is_inert_no_macros.
 
